@@ -59,9 +59,9 @@ def run_variant(v):
                     shutil.copy(os.path.join(repo, 'examples', f), os.path.join(tmp, 'examples', f))
         with open(os.path.join(tmp, relfile), 'w') as fh:
             fh.write(mutated)
-        env = dict(os.environ, VERIF_REPO=tmp, VERIF_EVIDENCE_DIR=os.path.join(tmp, 'evidence'), VERIF_OUT_DIR=os.path.join(tmp, 'out'))
+        env = dict(os.environ, VERIF_REPO=tmp, VERIF_EVIDENCE_DIR=os.path.join(tmp, 'evidence'), VERIF_OUT_DIR=os.path.join(tmp, 'out'), VERIF_TIER='quick')
         try:
-            p = subprocess.run([os.path.join(VERIF, 'check'), pid], env=env, capture_output=True, text=True, timeout=120)
+            p = subprocess.run([os.path.join(VERIF, 'check'), pid, '--tier', 'quick'], env=env, capture_output=True, text=True, timeout=120)
         except subprocess.TimeoutExpired:
             return (pid, name, 'TIMEOUT', 'check did not finish in 120 s')
         outp = p.stdout + p.stderr
@@ -90,3 +90,16 @@ def main(args):
                 print('     ' + detail.replace('\n', '\n     '))
     print('selftest: %d variants: %s' % (len(vs), counts))
     return 1 if bad else 0
+
+
+def summary_for(pid):
+    """run the variants of one property (used by the thorough tier; never changes the exit status of a property check)"""
+    vs = [v for v in corpus() if v[0] == pid]
+    counts = {}
+    missed = []
+    with cf.ThreadPoolExecutor(max_workers=int(os.environ.get('VERIF_JOBS', '14'))) as ex:
+        for p_, name, status, detail in ex.map(run_variant, vs):
+            counts[status] = counts.get(status, 0) + 1
+            if status not in ('detected', 'ok', 'skipped'):
+                missed.append(name)
+    return {'variants': len(vs), 'counts': counts, 'not_detected': missed}
